@@ -193,18 +193,29 @@ impl Sys {
                 return Err(Fail::new("server_reason", format!("{op:?}: server.disconnect_reason({id}) = {:?}, expected {exp:?}", self.server.disconnect_reason(id as u64))));
             }
         }
-        // events: exactly the expected ones, in order
+        // events: exactly the expected ones, in the expected order per client id (the statement orders the events of one id; how the
+        // events of different ids interleave is not promised)
+        let ev_id = |e: &ServerEvent| match e {
+            ServerEvent::ClientConnected { client_id } | ServerEvent::ClientDisconnected { client_id, .. } => *client_id,
+        };
         while self.poll_events {
-            let got = self.server.get_event();
-            let exp = self.expected_events.pop_front();
-            match (got, exp) {
-                (None, None) => break,
-                (g, e) if g == e => {}
-                (g, e) => {
-                    return Err(Fail::new("events", format!("{op:?}: server event {g:?}, the history calls for {e:?}")).sig(match (&g, &e) {
-                        (Some(ServerEvent::ClientDisconnected { reason: a, .. }), Some(ServerEvent::ClientDisconnected { reason: b, .. })) if a != b => "events:wrong_reason".to_string(),
-                        _ => "events".to_string(),
-                    }))
+            match self.server.get_event() {
+                None => {
+                    if let Some(e) = self.expected_events.front() {
+                        return Err(Fail::new("events", format!("{op:?}: no more server events, the history calls for {e:?}")));
+                    }
+                    break;
+                }
+                Some(g) => {
+                    let id = ev_id(&g);
+                    let pos = self.expected_events.iter().position(|e| ev_id(e) == id);
+                    let e = pos.and_then(|p| self.expected_events.remove(p));
+                    if e.as_ref() != Some(&g) {
+                        return Err(Fail::new("events", format!("{op:?}: server event {g:?}, the history calls for {e:?} as the next event of that id")).sig(match (&g, &e) {
+                            (ServerEvent::ClientDisconnected { reason: a, .. }, Some(ServerEvent::ClientDisconnected { reason: b, .. })) if a != b => "events:wrong_reason".to_string(),
+                            _ => "events".to_string(),
+                        }));
+                    }
                 }
             }
         }
@@ -226,7 +237,7 @@ impl Property for C12 {
         "exploration"
     }
     fn rule(&self) -> String {
-        "A case = a history of up to 120 (quick) / 400 (thorough) public API calls on one RenetServer and up to 4 client objects (remote-style and local): add/remove connection, disconnect, disconnect_all, new_local_client, disconnect_local_client, process_local_client, set_connected/set_connecting/disconnect/disconnect_due_to_transport, send (including sends over the channel budget), broadcast, receive, genuine and garbage packets in both directions, update, get_packets_to_send, and runs of 20-300 short-lived connections of one id; in some cases the application polls get_event only rarely, so hundreds of events are pending. A model records for every connection object the reason observed right after the operation that first disconnected it, and which operations may disconnect which object. Oracles after every call: a disconnected object stays disconnected with the same reason, emits no packets, yields no messages (even with messages buffered), ignores packets and status setters; no operation disconnects an object it does not address; clients_id / disconnections_id / connected_clients / disconnect_reason(id) agree with the model; the server event stream equals, event by event, the one the history calls for (connect on actual insertion, disconnect on actual removal with the first reason, Transport if healthy; disconnect_local_client on a healthy connection = DisconnectedByClient, as tests/lib.rs asserts). Non-trivial: >= 2 distinct causes of disconnection and calls of >= 4 families after a disconnect. Distinct = hash of the decoded call sequence.".into()
+        "A case = a history of up to 120 (quick) / 400 (thorough) public API calls on one RenetServer and up to 4 client objects (remote-style and local): add/remove connection, disconnect, disconnect_all, new_local_client, disconnect_local_client, process_local_client, set_connected/set_connecting/disconnect/disconnect_due_to_transport, send (including sends over the channel budget), broadcast, receive, genuine and garbage packets in both directions, update, get_packets_to_send, and runs of 20-300 short-lived connections of one id; in some cases the application polls get_event only rarely, so hundreds of events are pending. A model records for every connection object the reason observed right after the operation that first disconnected it, and which operations may disconnect which object. Oracles after every call: a disconnected object stays disconnected with the same reason, emits no packets, yields no messages (even with messages buffered), ignores packets and status setters; no operation disconnects an object it does not address; clients_id / disconnections_id / connected_clients / disconnect_reason(id) agree with the model; the server event stream equals, per client id event by event (and as a whole as a multiset), the one the history calls for (connect on actual insertion, disconnect on actual removal with the first reason, Transport if healthy; disconnect_local_client on a healthy connection = DisconnectedByClient, as tests/lib.rs asserts). Non-trivial: >= 2 distinct causes of disconnection and calls of >= 4 families after a disconnect. Distinct = hash of the decoded call sequence.".into()
     }
     fn assumptions(&self) -> Vec<String> {
         vec![
